@@ -289,8 +289,44 @@ def execute(cfg: kaisa.Config, hist: list[dict[str, Any]], seed: int,
                     torch.save(sd, buf)
                     buf.seek(0)
                     rr.ckpt = torch.load(buf, weights_only=False)
+                    rr.saved_exact = {
+                        'steps': rr.pre.steps,
+                        'hp': {'damping': rr.pre._damping,
+                               'factor_decay': rr.pre._factor_decay,
+                               'kl_clip': rr.pre._kl_clip, 'lr': rr.pre._lr,
+                               'F': rr.pre._factor_update_steps,
+                               'I': rr.pre._inv_update_steps},
+                        'factors': {n: {'A': peek(l, 'a_factor'),
+                                        'G': peek(l, 'g_factor')}
+                                    for n, l in rr.registered()},
+                        'inc': bool(arg)}
                 elif act == 'load':
                     rr.apply(['load', bool(arg)])
+                    se = rr.saved_exact
+                    bad = []
+                    if rr.pre.steps != se['steps']:
+                        bad.append('steps')
+                    for hk, attr in (('damping', '_damping'),
+                                     ('factor_decay', '_factor_decay'),
+                                     ('kl_clip', '_kl_clip'), ('lr', '_lr'),
+                                     ('F', '_factor_update_steps'),
+                                     ('I', '_inv_update_steps')):
+                        a0, a1 = se['hp'][hk], getattr(rr.pre, attr)
+                        if not callable(a0) and a0 != a1:
+                            bad.append(hk)
+                    if se['inc']:
+                        for n, l in rr.registered():
+                            for kk, at in (('A', 'a_factor'), ('G', 'g_factor')):
+                                t0 = se['factors'][n][kk]
+                                t1 = peek(l, at)
+                                if isinstance(t0, str):
+                                    continue
+                                if (t0 is None) != (t1 is None) or (
+                                        t0 is not None and not (
+                                            t0.dtype == t1.dtype
+                                            and torch.equal(t0, t1))):
+                                    bad.append(f'{n}.{kk}')
+                    out['exact_restore_bad'] = bad
                     cap.remove()
                     pid = cap.pid
                     layers = {n: l.module.module for n, l in rr.registered()}
@@ -433,6 +469,17 @@ def compare(cfg: kaisa.Config, hist: list[dict[str, Any]],
                     add('grad', i, f'{k}: dtype/shape changed')
                 if not got[k].is_contiguous():
                     add('grad', i, f'{k}: not contiguous')
+            # the property statement itself: the implementation's V = grad/nu
+            # must solve the defining system built from the reference factors
+            for name, mod in layers.items():
+                a_, g_ = info['AG'][name]
+                gotv = interp.combined(mod, got, name) / info['nu']
+                res = interp.residual(a_, g_, gotv, info['D'][name],
+                                      interp.method(), *info['lams'])
+                stats['max_resid'] = max(stats['max_resid'], res / tol)
+                if res > tol * max(1.0, info['cond'] / 10):
+                    add('grad', i, f'{name}: residual of the defining system '
+                                   f'{res:.3e} > {tol:.1e}')
             n_dec = len(out['lin'])
             stats['refresh_checks'] += 1
             if x['refresh'] and n_dec != out['expected_dec']:
@@ -443,6 +490,9 @@ def compare(cfg: kaisa.Config, hist: list[dict[str, Any]],
                     f'{n_dec} decompositions on a non-refresh step')
         elif act == 'load':
             stats['loads'] += 1
+            if out.get('exact_restore_bad'):
+                add('load', i, 'not restored exactly: '
+                               f'{out["exact_restore_bad"]}')
             for name in layers:
                 held = bool(out['hold'][name])
                 should = x['hasInv'] and out['gw'][name]
@@ -472,7 +522,13 @@ def replay(cfg: kaisa.Config, hist: list[dict[str, Any]], seed: int,
     torch.set_num_threads(1)
     interp = Interp(cfg, {})
     if cfg.W == 1:
-        recs = execute(cfg, hist, seed, 0, interp)
+        try:
+            recs = execute(cfg, hist, seed, 0, interp)
+        except Exception as e:  # noqa: BLE001  (constructor failed)
+            return {'mismatches': [{
+                'cat': 'raise', 'at': -1, 'act': 'construct', 'rank': 0,
+                'msg': f'constructor raised {type(e).__name__}: '
+                       f'{str(e)[:200]}'}], 'stats': {}, 'comm': []}
         out = compare(cfg, hist, recs, interp)
         out['comm'] = []
         return out
